@@ -585,7 +585,15 @@ DOMNode* DOMDocumentImpl::replaceChild(DOMNode *newChild, DOMNode *oldChild) {
 
         if((oldChild->getNodeType() == DOMNode::DOCUMENT_TYPE_NODE)
         || (oldChild->getNodeType() == DOMNode::ELEMENT_NODE))
-            return fParent.removeChild(oldChild);
+        {
+            fParent.removeChild(oldChild);
+            // replacing a node with itself removes it: do not keep it cached
+            if(fDocElement == oldChild)
+                fDocElement = 0;
+            if(fDocType == oldChild)
+                fDocType = 0;
+            return oldChild;
+        }
         else
             return removeChild(oldChild);
     }
